@@ -290,8 +290,8 @@ def variant_job(ck, prog, natbin):
     native.close()
 
 
-def main():
-    ck = Check("C18")
+def prepare(ck):
+    """configure `ck` and return the list of jobs of this property's exploration"""
     ck.crate = "hderive"
     quick = ck.tier == "quick"
     nvar = 2 if quick else 3
@@ -306,7 +306,12 @@ def main():
     for rn in sorted(SUPPORTS):
         ck.programs.add("hderive::%s" % rn)
         jobs.append(lambda sub, rn=rn: derive_job(sub, prog, natbin, rn, nvar, quick))
-    ck.run_jobs(jobs)
+    return jobs
+
+
+def main():
+    ck = Check("C18")
+    ck.run_jobs(prepare(ck))
     ck.require_reached(["api:accept", "api:reject", "data:struct", "data:enum", "accept", "reject"])
     ck.finish()
 
